@@ -20,11 +20,16 @@ impl GameRec {
         }
         Some(p)
     }
-    pub fn command(&self) -> String {
+    pub fn command(&self, fen_fields: usize) -> String {
+        // `fen_fields` < 6: the FEN is written without its last counters
+        let root = match self.root.strip_prefix("fen ") {
+            Some(f) if fen_fields < 6 => format!("fen {}", f.split_ascii_whitespace().take(fen_fields.max(4)).collect::<Vec<_>>().join(" ")),
+            _ => self.root.clone(),
+        };
         if self.moves.is_empty() {
-            format!("position {}", self.root)
+            format!("position {}", root)
         } else {
-            format!("position {} moves {}", self.root, self.moves.join(" "))
+            format!("position {} moves {}", root, self.moves.join(" "))
         }
     }
 }
@@ -41,6 +46,7 @@ pub fn root_pos(root: &str) -> Option<Pos> {
 pub fn run_script(steps: Vec<GStep>, tags: Vec<String>) {
     // `movestogo=N`: every clock `go` of this session also carries the token (the pinned engine ignores it)
     let mtg: String = tags.iter().find_map(|t| t.strip_prefix("movestogo=")).map(|n| format!(" movestogo {}", n)).unwrap_or_default();
+    let fen_fields: usize = tags.iter().find_map(|t| t.strip_prefix("fenfields=")).and_then(|n| n.parse().ok()).unwrap_or(6);
     let mut rec = GameRec { root: "startpos".into(), moves: vec![] };
     let mut readies: u64 = 0;
     let mut closed = false;
@@ -56,7 +62,7 @@ pub fn run_script(steps: Vec<GStep>, tags: Vec<String>) {
                 rec = GameRec { root, moves: pre };
             }
             GK::PosCur => {
-                let c = rec.command();
+                let c = rec.command(fen_fields);
                 sched::gui_send(st.id, &c);
             }
             GK::Advance { best, replies } => {
